@@ -13,7 +13,7 @@ static void __CPROVER_assume(int c) { if (!c) { fflush(stdout); fprintf(stderr, 
 
 /* ---------------- lock discipline (C03 b): with -DVF_DISCIPLINE every translated load/store/atomic access additionally asserts that an access to
    protected memory (objects registered with vf_protect, and heap blocks allocated while their lock was held) happens with that lock held */
-struct rt_prot { const void *base; const int *lock; unsigned long size; };
+struct rt_prot { const void *base; const int *lock; unsigned long size; int objonly; };
 struct rt_prot rt_prots[32]; int rt_nprot; int rt_discipline;
 #if defined(__CPROVER__) && defined(VF_DISCIPLINE)
 static void rt_access(const void *p) {
@@ -38,13 +38,15 @@ static void rt_access(const void *p) {
 #else
 #define RT_ACC(p) do { } while (0)
 #endif
-void vf_protect(void *obj, unsigned long size, void *lock) { if (rt_nprot < 32) { rt_prots[rt_nprot].base = obj; rt_prots[rt_nprot].lock = (const int*)lock; rt_prots[rt_nprot].size = size; rt_nprot++; } rt_discipline = 1; }
+void vf_protect(void *obj, unsigned long size, void *lock) { if (rt_nprot < 32) { rt_prots[rt_nprot].base = obj; rt_prots[rt_nprot].lock = (const int*)lock; rt_prots[rt_nprot].size = size; rt_prots[rt_nprot].objonly = 0; rt_nprot++; } rt_discipline = 1; }
+/* the object only: heap blocks allocated under its lock are not tracked (for components that hand such blocks to a local owner under the lock and release them outside it, e.g. thread_pool::stop) */
+void vf_protect_obj(void *obj, unsigned long size, void *lock) { vf_protect(obj, size, lock); rt_prots[rt_nprot - 1].objonly = 1; }
 void vf_unprotect_all(void) { rt_nprot = 0; rt_discipline = 0; }
 static void rt_prot_note_alloc(void *p, unsigned long size) {
   int i, n = rt_nprot;
   if (!rt_discipline) return;
   for (i = 0; i < n; i++)
-    if (*rt_prots[i].lock == 1 && rt_nprot < 32) { rt_prots[rt_nprot].base = p; rt_prots[rt_nprot].lock = rt_prots[i].lock; rt_prots[rt_nprot].size = size; rt_nprot++; break; }
+    if (!rt_prots[i].objonly && *rt_prots[i].lock == 1 && rt_nprot < 32) { rt_prots[rt_nprot].objonly = 0; rt_prots[rt_nprot].base = p; rt_prots[rt_nprot].lock = rt_prots[i].lock; rt_prots[rt_nprot].size = size; rt_nprot++; break; }
 }
 
 #ifdef __CPROVER__
